@@ -34,34 +34,34 @@ type c17Params struct {
 
 // documented defaults (README configuration table); alternatives are accepted readings (DESIGN §3 rule 3)
 var c17Defaults = map[string][]any{
-	"ScopeName":                               {"_default"},
-	"CollectionNames":                         {[]string{"_default"}},
-	"ConnectionBufferSize":                    {20 * 1024 * 1024},
-	"MaxQueueSize":                            {2048},
-	"ConnectionTimeout":                       {time.Minute},
-	"Dcp.BufferSize":                          {16 * 1024 * 1024},
-	"Dcp.Mode":                                {config.DcpMode(""), config.DcpModeInfinite},
-	"Dcp.ConnectionBufferSize":                {20 * 1024 * 1024},
-	"Dcp.ConnectionTimeout":                   {time.Minute},
-	"Dcp.MaxQueueSize":                        {2048},
-	"Dcp.Group.Membership.Type":               {"", "couchbase"},
-	"Dcp.Group.Membership.MemberNumber":       {1},
-	"Dcp.Group.Membership.TotalMembers":       {1},
-	"Dcp.Group.Membership.RebalanceDelay":     {30 * time.Second},
-	"LeaderElection.Type":                     {"kubernetes"},
-	"LeaderElection.RPC.Port":                 {8081},
-	"Checkpoint.Type":                         {"auto"},
-	"Checkpoint.AutoReset":                    {"earliest"},
-	"Checkpoint.Interval":                     {time.Minute},
-	"Checkpoint.Timeout":                      {time.Minute},
-	"HealthCheck.Interval":                    {time.Minute},
-	"HealthCheck.Timeout":                     {time.Minute},
-	"RollbackMitigation.Interval":             {time.Second},
-	"RollbackMitigation.ConfigWatchInterval":  {10 * time.Second},
-	"Metadata.Type":                           {"couchbase"},
-	"API.Port":                                {8080},
-	"Metric.Path":                             {"/metrics"},
-	"Logging.Level":                           {"info", ""},
+	"ScopeName":                              {"_default"},
+	"CollectionNames":                        {[]string{"_default"}},
+	"ConnectionBufferSize":                   {20 * 1024 * 1024},
+	"MaxQueueSize":                           {2048},
+	"ConnectionTimeout":                      {time.Minute},
+	"Dcp.BufferSize":                         {16 * 1024 * 1024},
+	"Dcp.Mode":                               {config.DcpMode(""), config.DcpModeInfinite},
+	"Dcp.ConnectionBufferSize":               {20 * 1024 * 1024},
+	"Dcp.ConnectionTimeout":                  {time.Minute},
+	"Dcp.MaxQueueSize":                       {2048},
+	"Dcp.Group.Membership.Type":              {"", "couchbase"},
+	"Dcp.Group.Membership.MemberNumber":      {1},
+	"Dcp.Group.Membership.TotalMembers":      {1},
+	"Dcp.Group.Membership.RebalanceDelay":    {30 * time.Second},
+	"LeaderElection.Type":                    {"kubernetes"},
+	"LeaderElection.RPC.Port":                {8081},
+	"Checkpoint.Type":                        {"auto"},
+	"Checkpoint.AutoReset":                   {"earliest"},
+	"Checkpoint.Interval":                    {time.Minute},
+	"Checkpoint.Timeout":                     {time.Minute},
+	"HealthCheck.Interval":                   {time.Minute},
+	"HealthCheck.Timeout":                    {time.Minute},
+	"RollbackMitigation.Interval":            {time.Second},
+	"RollbackMitigation.ConfigWatchInterval": {10 * time.Second},
+	"Metadata.Type":                          {"couchbase"},
+	"API.Port":                               {8080},
+	"Metric.Path":                            {"/metrics"},
+	"Logging.Level":                          {"info", ""},
 }
 
 type leaf struct {
